@@ -173,6 +173,32 @@ def run(ctx):
                             ctx.report(f"epk is not an RFC-conformant public JWK: {e}", {"key": label, "epk": epk}, "epk:shape")
             except Exception as e:  # noqa: BLE001
                 ctx.extra.setdefault("skipped", []).append(f"{label}:{alg}:{err_name(e)}")
+            # a caller-pinned ephemeral key (recipient.ephemeral_key), bare or carrying JWK metadata: the token shows its public half
+            if alg.startswith("ECDH") and key.is_private:
+                cls = ECKey if kt == "EC" else OKPKey
+                crv = key.curve_name
+                pinned = [("bare", cls.generate_key(crv)), ("auto-kid", cls.generate_key(crv, auto_kid=True)),
+                          ("use-enc", cls.generate_key(crv, parameters={"use": "enc"})),
+                          ("kid-alg-ops", cls.import_key(dict(cls.generate_key(crv).as_dict(private=True), kid="eph-1", alg=alg, key_ops=["deriveKey"])))]
+                for pname, eph in pinned:
+                    eph_needles = needles_of(eph)
+                    for form in ("general", "flat"):
+                        try:
+                            ocls = jwe.GeneralJSONEncryption if form == "general" else jwe.FlattenedJSONEncryption
+                            obj = ocls({"enc": enc}, b"plaintext")
+                            obj.add_recipient({"alg": alg}, key)
+                            obj.recipients[0].ephemeral_key = eph
+                            out = jwe.encrypt_json(obj, None, algorithms=jwe_all, sender_key=sender)
+                        except Exception as e:  # noqa: BLE001
+                            ctx.extra.setdefault("skipped", []).append(f"{label}:{alg}:pinned-{pname}:{err_name(e)}")
+                            continue
+                        ctx.count("epk-pinned", (label, alg, pname, form), True, f"{kt}:{pname}")
+                        scan(ctx, label + "/ephemeral", f"jwe-{form}-pinned-{pname}:{alg}", out, eph_needles)
+                        r0 = out["recipients"][0] if form == "general" else out
+                        epk = (r0.get("header") or {}).get("epk", {})
+                        if PRIVATE_NAMES & set(epk):
+                            ctx.report(f"the pinned ephemeral key ({pname}) is published with a private member ({form}, {alg})",
+                                       {"key": label, "epk": sorted(epk), "alg": alg, "pinned": pname}, "epk:private-member:pinned")
     # --- key sets
     keys = [type(k).import_key(k.as_dict()) for _, k in pop if not (k.key_type == "oct" and len(k.raw_value) < 8)]
     for size in (1, 3, len(keys)):
